@@ -9,14 +9,22 @@ class Spec(c01.Spec):
     prop = 'C02'
 
     def gen(self, rng, fam):
-        return sched.gen_scenario(rng, family=fam['family'])
+        scn = sched.gen_scenario(rng, family=fam['family'],
+                                 calls=fam.get('calls', 1))
+        if fam.get('calls', 1) > 1:
+            scn['second_env'] = 'fresh'
+        return scn
 
     runs = {'quick': 24000, 'thorough': 1500000}
     families = [{'label': 'well-formed', 'family': 'well'},
                 {'label': 'malformed-returns', 'family': 'malformed'},
                 {'label': 'unmergeable-updates', 'family': 'unmergeable'},
                 {'label': 'tasks-calling-sys-exit', 'family': 'exiting'},
-                {'label': 'tasks-echoing-their-entry', 'family': 'echo'}]
+                {'label': 'tasks-echoing-their-entry', 'family': 'echo'},
+                # the same Scheduler asked again, from an empty environment:
+                # the same outcome again
+                {'label': 'scheduled-twice-from-scratch', 'family': 'well',
+                 'calls': 2}]
     rule = c01.Spec.rule + ('; the final status map and the per-task '
                             'execution counters are compared with a '
                             'sequential reference model of the graph')
